@@ -131,7 +131,7 @@ type World struct {
 
 	// StepHook, if set, runs on the scheduler goroutine after every grant
 	// decision and before the task is woken (used for invariants and probes).
-	StepHook func(w *World, t *Task)
+	StepHook func(w *World, t *Task, kind string)
 
 	// Stuck lists the parked tasks when the run ended in deadlock.
 	Stuck []StuckTask
@@ -367,6 +367,9 @@ func (w *World) pick() *Task {
 	return runnable[k]
 }
 
+// Blocked reports whether the parked task t cannot proceed now (scheduler side).
+func (w *World) Blocked(t *Task) bool { return t.op != nil && !w.ready(t) }
+
 func (w *World) ready(t *Task) bool {
 	op := t.op
 	if op == nil {
@@ -447,7 +450,11 @@ func (w *World) grant(t *Task) {
 	}
 	t.op = nil
 	if w.StepHook != nil {
-		w.StepHook(w, t)
+		k := ""
+		if op != nil {
+			k = op.Kind
+		}
+		w.StepHook(w, t, k)
 	}
 	if w.stopping {
 		// the effect that ended the world (e.g. a crash) has been applied; the
